@@ -225,6 +225,27 @@ class Assembler:
         first = v.text(j) if j < end else ""
         brace_item = first in ("fn", "impl", "mod", "trait", "enum", "struct", "union") or \
             (first in ("const", "unsafe", "async", "extern") and any(v.is_id(q, "fn") for q in range(j, min(j + 4, end))))
+        if first in ("if", "match", "while", "for", "loop") and not brace_item:
+            # block-like expression statement: ends at the closing brace of its (last) block unless
+            # the expression continues (`.method()`, `?`, binary operator ...)
+            q = j
+            while True:
+                while q < end and not v.is_p(q, "{"):
+                    if v.t[q].text in "([":
+                        q = v.match[q]
+                    q += 1
+                if q >= end:
+                    break
+                q = v.match[q] + 1
+                if v.is_id(q, "else"):
+                    q += 1
+                    continue
+                break
+            if q < end and (v.is_p(q, ";")):
+                return q + 1
+            if q <= end and not (q < end and v.t[q].kind == PUNCT and v.t[q].text in (".", "?", "+", "-", "*", "/", "&&", "||", "==", "as")) \
+                    and not (q < end and v.is_id(q, "as")):
+                return q
         k = j
         while k < end:
             tk = v.t[k]
@@ -538,9 +559,30 @@ class Assembler:
         if v.is_id(cb + 1, "else"):
             raise ExtractError(f"R12: let-chain with else at line {v.t[k].line} is outside the supported fragment")
         edits = []
-        for a_ in ands:
-            nxt = "if" if True else ""
-            edits.append(Edit(a_, a_ + 1, "{ if", "R12", "let-chain && -> nested if"))
+        # R11c: `let Some([x, y]) = e` inside the chain: bind a temporary, read the elements in the
+        # scope the condition opens (array patterns are outside Verus's fragment)
+        starts = [k + 1] + [a_ + 1 for a_ in ands]
+        ends = ands + [ob]
+        decls = {}
+        for si, (sa, se) in enumerate(zip(starts, ends)):
+            if not v.is_id(sa, "let"):
+                continue
+            q = sa + 1
+            while q < se and not v.is_p(q, "="):
+                if v.is_p(q, "[") and v.is_p(q - 1, "("):
+                    qb = v.match[q]
+                    names = [v.text(x) for x in range(q + 1, qb) if v.t[x].kind == IDENT]
+                    tmp = f"arr__{self.counter}"
+                    self.counter += 1
+                    edits.append(Edit(q, qb + 1, tmp, "R11", "array pattern inside a let-chain -> temporary"))
+                    decls[si] = " ".join(f"let {n} = {tmp}[{i}];" for i, n in enumerate(names))
+                    q = qb
+                q += 1
+        for i, a_ in enumerate(ands):
+            d = decls.get(i, "")
+            edits.append(Edit(a_, a_ + 1, "{ " + d + " if", "R12", "let-chain && -> nested if"))
+        if len(ands) in decls:
+            edits.append(Edit(ob + 1, ob + 1, decls[len(ands)], "R11", "array pattern element reads"))
         edits.append(Edit(cb + 1, cb + 1, "}" * len(ands), "R12", "closing braces for nested ifs"))
         return edits
 
